@@ -140,3 +140,18 @@ def load_corpus(verif, pid):
     if os.path.exists(p):
         return json.load(open(p))
     return []
+
+
+def coq_eval(verif: str, pid: str, name: str, body: str, timeout: int = 900) -> str:
+    """Evaluate a generated Coq file (e.g. `Eval vm_compute in ...`) against the compiled theories.
+    Returns coqc's stdout+stderr; raises on failure.  Files live under build/cases/<pid>/."""
+    d = os.path.join(verif, "build", "cases", pid)
+    os.makedirs(d, exist_ok=True)
+    path = os.path.join(d, name + ".v")
+    with open(path, "w") as f:
+        f.write(body)
+    p = subprocess.run(f"ulimit -s unlimited 2>/dev/null; timeout {timeout} coqc -Q {verif}/coq/theories AHK {name}.v",
+                       shell=True, cwd=d, stdout=subprocess.PIPE, stderr=subprocess.STDOUT, text=True, timeout=timeout + 30)
+    if p.returncode != 0:
+        raise RuntimeError(f"coq_eval {name} failed rc={p.returncode}: {p.stdout[-2000:]}")
+    return p.stdout
